@@ -356,7 +356,7 @@ def mutate(rng, t):
     if k == 8 and len(t) > 2:
         i = rng.randrange(1, len(t))
         return t[:i] + '_' + t[i:]
-    if k == 9 and t:
+    if k == 9 and t and rng.random() < 0.3:
         i = rng.randrange(len(t))
         return t[:i] + rng.choice(['١', '²', 'é', 'İ', '１', ' ']) + t[i + 1:]
     return t + t
@@ -465,9 +465,12 @@ def correspondence(ctx):
             ctx.count('skipped:overflow')
             return
         try:
-            ctx.corr(op, [enc(t)], call(lambda: f(t), conv), nontrivial)
+            impl = call(lambda: f(t), conv)
         except Skip:
             ctx.count('skipped:overflow')
+            return
+        ctx.corr(op, [enc(t)], impl, nontrivial)
+        ctx.count('result:' + op + ':' + ('ok' if impl.startswith('ok:') else impl[4:]))
 
     # -- the declarative pieces the hand matchers implement
     ctx.corr('c_regex_dur', [], enc(prop.DURATION_REGEX.pattern))
